@@ -189,7 +189,10 @@ Definition decode13 (s : st) (r : rec) (o : hsres) : st * outcome :=
         else (s, Ignored) in
       if rsec s then
         match r_prot r with
-        | Good => if Z.eqb (r_inner r) 0 then fatal s c_SSL_ALERT_UNEXPECTED_MESSAGE else dispatch (r_inner r)
+        | Good =>
+            (* "no non-zero octet" test: p == decryptTo also holds when the inner plaintext is empty (only the
+               type byte), so a zero-length TLSInnerPlaintext of ANY type is refused (tls13Decode.c 330-345) *)
+            if Z.eqb (r_inner r) 0 || r_empty r then fatal s c_SSL_ALERT_UNEXPECTED_MESSAGE else dispatch (r_inner r)
         | _ =>
           if ed_skip s && Z.leb (ed_seen s + r_len r) (ed_max s) then (set_ed_seen s (ed_seen s + r_len r), Ignored)
           else fatal (if ed_skip s then set_ed_seen s (ed_seen s + r_len r) else s) c_SSL_ALERT_BAD_RECORD_MAC
